@@ -388,6 +388,8 @@ impl EventGen for Container {
                 } else if self.0.name == "text" {
                     // text with child elements (tspan etc): its anchor point
                     bbox = new_el.bbox()?;
+                    // (... which is where references to it find it)
+                    context.update_element(&new_el);
                 }
 
                 if bbox.is_some() {
